@@ -164,12 +164,90 @@ def build():
                    "implies(priority >= old(prio_of_key(k)), has_entry(k, priority, color) and others_kept(k) and "
                    "only_old_or_new(k))")],
          modifies=["self.stack", "self.stack.*"], raises={}, bounded="stack of 2 existing entries")
+    # ---- public removal with fade-out (what a stopping show / player calls)
+    C.cls("LightDelay", fields={})
+
+    def delay_reset(I, env, a, k):
+        emit(I, "delay.reset", name=k.get("name"), ms=k.get("ms"), callback=k.get("callback"))
+        return k.get("name")
+    C.ext("LightDelay.reset", model=delay_reset,
+          trusted_reason="DelayManager.reset (C13): replaces the pending delay OF THAT NAME by a new one")
+    C.classes["Light"].fields.update(dict(delay=ObjS("LightDelay"), default_fade_ms=Int, name=Str))
+    C.ext("Light._get_color_and_fade", model=lambda I, env, a, k: VTuple([I.fresh(COLOR, I.fresh_name("color_of_key")),
+                                                                         VInt(z3.Int(I.fresh_name("fade"))), VBool(True)]),
+          trusted_reason="colour of a stack slice (recursive interpolation; not yet under contract)")
+    C.globals["partial"] = VFn("builtin", name="partial")
+
+    def fade_out_entry(I, key):
+        """the stack holds a transparent fade-out entry (dest_color None) for the key, with the key's old priority"""
+        kt = I.force(key).t
+        cs = []
+        for n in entries(I, I.heap):
+            dc = I.force(I.read_field(n, "dest_color"))
+            cs.append(z3.And(fld(I, n, "key").t == kt, I.is_none(dc),
+                             fld(I, n, "priority").t == _prio_of(I, key)))
+        return VBool(z3.Or(cs + [z3.BoolVal(False)]))
+    C.helpers["fade_out_entry"] = fade_out_entry
+
+    def removal_pending_for(I, key, fade_ms):
+        """exactly one delayed removal, registered under a name that belongs to this key alone
+        ('remove_fade_' + key), calling _remove_fade_out(key=key) after fade_ms"""
+        ev = events_named(I, "delay.reset")
+        if len(ev) != 1:
+            return VBool(False)
+        e = ev[0]
+        cb = I.force(e.args["callback"])
+        ok = cb.tag == "fn" and cb.kind == "partial" and I.force(cb.fn).tag == "fn" and \
+            I.force(cb.fn).name == "_remove_fade_out" and set(cb.kwargs) == {"key"} and not cb.args
+        if not ok:
+            return VBool(False)
+        return VBool(z3.And(I.force(e.args["name"]).t == z3.Concat(z3.StringVal("remove_fade_"), I.force(key).t),
+                            I.eq(cb.kwargs["key"], key), I.eq(e.args["ms"], fade_ms)))
+    C.helpers["removal_pending_for"] = removal_pending_for
+    C.helpers["n_delay_resets"] = lambda I: VInt(len(events_named(I, "delay.reset")))
+
+    def key_in_old(I, key):
+        kt = I.force(key).t
+        return VBool(z3.Or([fld(I, o, "key", I.old_heap).t == kt for o in entries(I, I.old_heap)] + [z3.BoolVal(False)]))
+    C.helpers["key_in_old_stack"] = key_in_old
+
+    def old_entry_is_fadeout(I, key):
+        kt = I.force(key).t
+        cs = [z3.And(fld(I, o, "key", I.old_heap).t == kt, I.is_none(I.force(I.read_field(o, "dest_color", heap=I.old_heap))))
+              for o in entries(I, I.old_heap)]
+        return VBool(z3.Or(cs + [z3.BoolVal(False)]))
+    C.helpers["old_entry_is_fadeout"] = old_entry_is_fadeout
+    C.fn("Light._remove_fade_out", params=dict(key=Str),
+         loops={0: LoopSpec(invariant=[], unroll=True)},
+         requires=[("S1/S2 hold", "stack_inv()")],
+         ensures=[("a timed-out fade-out entry of the key is removed; everything else stays",
+                   "others_kept(key) and only_old_or_new(key) and implies(old_entry_is_fadeout(key), key_gone(key))"),
+                  ("S1/S2 preserved", "stack_inv()")],
+         modifies=["self.stack"], raises={}, bounded="stack of 2 entries")
+    FADES = "(key_in_old_stack(key) and not old_entry_is_fadeout(key) and (fade_ms if fade_ms is not None else " \
+            "self.default_fade_ms) != 0)"
+    C.fn("Light.remove_from_stack_by_key", params=dict(key=Str, fade_ms=Opt(Int)),
+         loops={0: LoopSpec(invariant=[], unroll=True)},
+         requires=[("S1/S2 hold", "stack_inv()"),
+                   ("fade times are not negative", "(fade_ms is None or fade_ms >= 0) and self.default_fade_ms >= 0")],
+         ensures=[
+             ("K1: without a fade the key's settings are gone and everything beneath / above is kept",
+              "implies(not " + FADES + ", others_kept(key) and only_old_or_new(key) and n_delay_resets() == 0 and "
+              "implies(key_in_old_stack(key) and not old_entry_is_fadeout(key), key_gone(key)))"),
+             ("K2: with a fade the settings are replaced by ONE transparent fade-out entry of the same key and "
+              "priority, and its removal is pending under a name that belongs to this key alone - so another key's "
+              "fade-out on the same light cannot cancel it",
+              "implies(" + FADES + ", fade_out_entry(key) and others_kept(key) and only_old_or_new(key) and "
+              "removal_pending_for(key, fade_ms if fade_ms is not None else self.default_fade_ms))"),
+             ("S1/S2 preserved", "stack_inv()")],
+         modifies=["self.stack", "self.stack.*"], raises={}, bounded="stack of 2 entries")
     C.fn("Light.clear_stack",
          ensures=[("removing all keys turns the light off: the stack is empty and an update is pushed",
                    "len(self.stack) == 0 and n_updates() == 1")],
          modifies=["self.stack"], raises={})
     C.helpers["n_updates"] = lambda I: VInt(len(events_named(I, "schedule_update")))
-    C.trace_helpers = {"n_updates", "last_set", "all_sets_in_unit", "eventual_is"}
+    C.trace_helpers = {"n_updates", "last_set", "all_sets_in_unit", "eventual_is", "removal_pending_for",
+                       "n_delay_resets"}
 
     # ------------------------------------------------------------------ direct / software fade back end
     C.cls("Task", fields=dict(target=Real, cancelled=Bool))
